@@ -70,6 +70,16 @@ fn main() {
     let sync = sync
         .replace("pub(crate) mod mutex;", &format!("pub(crate) mod mutex {{\n{mutex}\n}}"))
         .replace("pub(crate) mod rwlock;", &format!("pub(crate) mod rwlock {{\n{rwlock}\n}}"));
+    // harness-only accessors appended to the generated rwlock module (never to the repository): a
+    // way to start from a state with (almost) the maximum number of read guards alive, as after
+    // that many leaked guards. Only when the text still has the shape they rely on.
+    let has_shape = rwlock.contains("inner: InnerLock") && rwlock.contains("state: AtomicU32") && rwlock.contains("pub unsafe fn read_unlock(&self)") && rwlock.contains("const MAX_READERS: u32");
+    let extra = if has_shape {
+        "\nimpl<T> RwLock<T> {\n    pub const VERIF_MAX_READERS: Option<u32> = Some(MAX_READERS);\n    pub fn verif_preload_readers(&self, n: u32) { self.inner.state.store(n, crate::shim::atomic::Ordering::Relaxed); }\n    pub fn verif_release_reader(&self) { unsafe { self.inner.read_unlock() } }\n}\n"
+    } else {
+        "\nimpl<T> RwLock<T> {\n    pub const VERIF_MAX_READERS: Option<u32> = None;\n    pub fn verif_preload_readers(&self, _n: u32) {}\n    pub fn verif_release_reader(&self) {}\n}\n"
+    };
+    let sync = sync.replacen("pub(crate) mod rwlock {\n", &format!("pub(crate) mod rwlock {{\n{extra}"), 1);
     let all = format!("#[allow(dead_code, unused_imports, clippy::all)]\npub mod sync {{\n{sync}\n}}\n");
     for forbidden in ["core::sync::atomic", "rusl::futex", "core::hint::spin_loop", "std::sync", "std::thread"] {
         assert!(!all.contains(forbidden), "generated lock sources still contain `{forbidden}`: the substitution no longer covers the repository text");
